@@ -14,6 +14,7 @@ import (
 	_ "verif/checks/c07"
 	_ "verif/checks/c09"
 	_ "verif/checks/c10"
+	_ "verif/checks/c11"
 	_ "verif/checks/c12"
 	_ "verif/checks/c13"
 	_ "verif/checks/c14"
